@@ -2578,10 +2578,14 @@ def _decode_openssh_private(
                     get_encryption_params(cipher_name)
             except KeyError:
                 raise KeyEncryptionError('Unknown cipher: ' +
-                                         cipher_name.decode('ascii')) from None
+                                         cipher_name.decode(
+                                             'ascii', 'backslashreplace')) \
+                    from None
 
             if kdf != b'bcrypt':
-                raise KeyEncryptionError('Unknown kdf: ' + kdf.decode('ascii'))
+                raise KeyEncryptionError('Unknown kdf: ' +
+                                         kdf.decode('ascii',
+                                                    'backslashreplace'))
 
             if not _bcrypt_available: # pragma: no cover
                 raise KeyEncryptionError('OpenSSH private key encryption '
